@@ -4,12 +4,15 @@ import Libp2pModel.Model.C35
 Line protocol of C35 (harness `h_gs_c/src/c35.rs`):
 
 ```
-case <idx> <class> nt=<0|1> mesh_n=<n> ttl=<ns> flood=<0|1>
+case <idx> <class> nt=<0|1> mesh_n=<n> ttl=<ns> flood=<0|1> cap=<n>
 op connect <p> <g|f> | disconnect <p> | explicit <p> | subs <p> <+t,-t,…> | subscribe <t>
-   | unsubscribe <t> | score <p> <int> | publish <t> <now> <low> <rcpt> | hb <now> <low> <fanmap>
-impl <ok|nopeers|*> fan=<fanmap> rcpt=<list|*> peers=<id kind:topics;…> sub=<list>
+   | unsubscribe <t> | score <p> <int> | publish <t> <now> <low> <x|~|p.p> | hb <now> <low> <fanmap>
+   | hold <p> | release <p>
+impl <ok|nopeers|full:n|*> fan=<fanmap> rcpt=<list|*> q=<n|*> peers=<id kind:topics;…> sub=<list>
 ```
-`fanmap` = `t=p.p;t=~` (`-` = no entry at all), lists are comma separated (`-` = empty).
+`fanmap` = `t=p.p;t=~` (`-` = no entry at all), lists are comma separated (`-` = empty). The publish
+oracle is the topic's fanout entry after the publish (`x` = none); `rcpt` = the peers whose queue the
+harness empties that received the message; `q` (release only) = number of messages found in the queue.
 -/
 namespace Driver.C35
 open Drv
@@ -23,7 +26,8 @@ def cfgVal (cfg : List String) (key : String) (dflt : Nat) : Nat :=
   | none => dflt
 
 def initState (cfg : List String) : State :=
-  init { meshN := cfgVal cfg "mesh_n" 6, ttl := cfgVal cfg "ttl" 60000000000, flood := cfgVal cfg "flood" 0 == 1 }
+  init { meshN := cfgVal cfg "mesh_n" 6, ttl := cfgVal cfg "ttl" 60000000000, flood := cfgVal cfg "flood" 0 == 1,
+         cap := cfgVal cfg "cap" 5000 }
 
 def sortNat (l : List Nat) : List Nat := l.mergeSort (fun a b => a ≤ b)
 
@@ -67,6 +71,9 @@ def stripKey (key : String) (tok : String) : Option String :=
   | k :: rest => if k == key then some ("=".intercalate rest) else none
   | _ => none
 
+def parseFanEntry (s : String) : Option (Option (List Nat)) :=
+  if s == "x" then some none else (parseSepNat "." "~" s).map some
+
 def parseOp (args : List String) : Option Op :=
   match args with
   | ["connect", p, k] => p.toNat?.map (fun p => .connect p (k == "g"))
@@ -78,28 +85,32 @@ def parseOp (args : List String) : Option Op :=
   | ["subscribe", t] => t.toNat?.map .subscribe
   | ["unsubscribe", t] => t.toNat?.map .unsubscribe
   | ["score", p, _] => p.toNat?.map (fun _ => .subs 0 [])
-  | ["publish", t, now, low, rcpt] =>
-    match t.toNat?, now.toNat?, parseSepNat "," "-" low, parseSepNat "," "-" rcpt with
-    | some t, some now, some low, some rcpt => some (.publish t now low rcpt)
+  | ["publish", t, now, low, fa] =>
+    match t.toNat?, now.toNat?, parseSepNat "," "-" low, parseFanEntry fa with
+    | some t, some now, some low, some fa => some (.publish t now low fa)
     | _, _, _, _ => none
+  | ["hold", p] => p.toNat?.map .hold
+  | ["release", p] => p.toNat?.map .release
   | ["hb", now, low, fan] =>
     match now.toNat?, parseSepNat "," "-" low, parseFan fan with
     | some now, some low, some fan => some (.heartbeat now low (fun t => ((fanOf fan) t).getD []))
     | _, _, _ => none
   | _ => none
 
-def render (res rcpt : String) (s : State) : String :=
-  res ++ " fan=" ++ showFan s.fanout ++ " rcpt=" ++ rcpt ++ " peers=" ++ showPeers s.peers
+def render (res rcpt : String) (s : State) (q : String := "*") : String :=
+  res ++ " fan=" ++ showFan s.fanout ++ " rcpt=" ++ rcpt ++ " q=" ++ q ++ " peers=" ++ showPeers s.peers
     ++ " sub=" ++ showList "," "-" s.subscribed
 
 /-- model step + predicted impl line -/
 def opLine (fixed : Bool) (s : State) (o : Op) : State × String :=
   match o with
-  | .publish t now low rcpt =>
-    match publishG fixed s t now low rcpt with
+  | .publish t now low fa =>
+    match publishG fixed s t now low fa with
     | (s', .other) => (s', render "*" "*" s')
-    | (s', .rcpt r) => (s', render (if r.isEmpty then "nopeers" else "ok") (showList "," "-" r) s')
+    | (s', .sent rc d) =>
+      (s', render (resultOf rc d) (showList "," "-" (d.filter (fun p => !s.held.contains p))) s')
     | (s', .badOracle) => (s', "bad-oracle " ++ render "?" "?" s')
+  | .release p => let s' := step s (.release p); (s', render "ok" "*" s' (toString (s.qlen p)))
   | .heartbeat now low post =>
     match heartbeat s now low topicUniverse post with
     | some s' => (s', render "ok" "*" s')
@@ -112,7 +123,7 @@ structure Mon where
 
 def specLine (mo : Mon) (o : Op) (outs : List String) : Mon × String :=
   match outs with
-  | [_res, fanTok, rcptTok, _peers, _sub] =>
+  | [_res, fanTok, rcptTok, _q, _peers, _sub] =>
     match (stripKey "fan" fanTok).bind parseFan, stripKey "rcpt" rcptTok with
     | some fanL, some rcptS =>
       let post := fanOf fanL
@@ -122,7 +133,8 @@ def specLine (mo : Mon) (o : Op) (outs : List String) : Mon × String :=
           if mo.m.cfg.flood || mo.m.subscribed.contains t then none
           else match parseSepNat "," "-" rcptS with
             | some rcpt =>
-              specPublish mo.m.cfg.meshN (candidates mo.m t low) ((mo.fan t).getD []) ((post t).getD []) rcpt
+              specPublish mo.m.cfg.meshN mo.m.cfg.cap (candidates mo.m t low) ((mo.fan t).getD []) ((post t).getD [])
+                rcpt mo.m.held
             | none => some "unparsable_rcpt"
         | _ => none
       let verdictKeep : Option String :=
